@@ -113,6 +113,9 @@ func (e *env) attachGen(rng *rand.Rand, p *program) {
 				}
 				if nd.Kind == evmx.KCall && !static && rng.Intn(4) == 0 {
 					nd.Value = big.NewInt(int64(1 + rng.Intn(1000)))
+					if rng.Intn(6) == 0 {
+						nd.Value = new(big.Int).Lsh(big.NewInt(1), 100) // more than the caller holds: the call never starts
+					}
 				}
 				cctx := nd.To
 				if nd.Kind == evmx.KDelegate || nd.Kind == evmx.KCallCode {
@@ -407,6 +410,10 @@ func (e *env) genPre(rng *rand.Rand, p *program, nd *evmx.Node, ctx common.Addre
 		if rng.Intn(2) == 0 {
 			value = big.NewInt(int64(2000 + nd.ID))
 			variant = m + "/value"
+			if canPay && rng.Intn(10) == 0 {
+				value = new(big.Int).Lsh(big.NewInt(1), 100) // more than the caller holds: the precompile is never entered
+				variant = m + "/unfunded-value"
+			}
 		} else {
 			variant = m + "/no-value"
 		}
